@@ -47,10 +47,10 @@ def run(ctx):
     quick = ctx.tier == "quick"
     samples = []
     # ---- design + E: theorems for every (n, S), table exported and replayed
-    rt = ctx.tlc_design("fn/MerkleTable", "cfg/MerkleTable.%s.cfg" % ("quick" if quick else "thorough"), timeout=2400, tag="table")
+    rt = ctx.tlc_design("fn/MerkleTable", "cfg/MerkleTable.%s.cfg" % ("quick" if quick else "thorough"), timeout=2400, tag="table", workers=8)
     designs = [rt]
     if not quick:
-        designs.append(ctx.tlc_design("fn/MerkleTable", "cfg/MerkleTable.design.cfg", timeout=2400, tag="theorems-n10"))
+        designs.append(ctx.tlc_design("fn/MerkleTable", "cfg/MerkleTable.design.cfg", timeout=2400, tag="theorems-n10", workers=8))
     ht = ctx.harness([b, "table", rt.path], timeout=1500)
     if rt.nexports < 255 or (ht["summary"].get("cases") != rt.nexports and not ht["violations"]):   # the driver stops early once it has enough violations
         raise Infra("table: replayed %s of %d exported cases" % (ht["summary"].get("cases"), rt.nexports))
